@@ -366,7 +366,7 @@ func c14Producers(p *Prog, r *Report) {
 			continue
 		}
 		info := fi.Pkg.TypesInfo
-		f := p.FlatOf(fi)
+		f := p.FlatInl(fi)
 		pops := f.Match(func(gn *GNode) bool {
 			for _, c := range callsIn(gn.Ast, false) {
 				if p.callIs(fi.Pkg, c, "(*internal/model/core.file).PopBack", "(*internal/model/core.file).PopFront") {
@@ -379,46 +379,50 @@ func c14Producers(p *Prog, r *Report) {
 			r.Viol("C14.b", k+"#pops", p.pos(fi.Decl), "no version is popped any more")
 			continue
 		}
-		// result list object(s): named result or returned variable
-		var lists []types.Object
+		// result list(s), named by storage path: named result, returned variable or field of a local state struct,
+		// or what a small helper of the package returns (d.all() = append(d.dropped, d.moved...))
+		lists := map[string]bool{}
 		res := fi.Sig().Results()
 		for i := 0; i < res.Len(); i++ {
 			if _, ok := res.At(i).Type().(*types.Slice); ok && res.At(i).Name() != "" {
-				lists = append(lists, res.At(i))
+				lists[objID(res.At(i))] = true
 			}
 		}
 		for _, id := range f.ReturnNodes() {
 			if rs := f.returnStmt(id); rs != nil && len(rs.Results) >= 1 {
-				if o := objOf(info, rs.Results[0]); o != nil {
-					lists = append(lists, o)
+				for lp := range listPaths(p, fi, f, rs.Results[0]) {
+					lists[lp] = true
 				}
 			}
 		}
 		// collections that flow into the lists through a deferred append (UpdateTx: files)
-		ast.Inspect(fi.Decl.Body, func(x ast.Node) bool {
-			if as, ok := x.(*ast.AssignStmt); ok && len(as.Rhs) == 1 && len(as.Lhs) == 1 {
-				if c, ok := ast.Unparen(as.Rhs[0]).(*ast.CallExpr); ok {
-					if id, ok := c.Fun.(*ast.Ident); ok && id.Name == "append" && len(c.Args) >= 2 {
-						lo := objOf(info, as.Lhs[0])
-						for _, l := range lists {
-							if lo == l && c.Ellipsis.IsValid() {
-								if o := objOf(info, c.Args[1]); o != nil {
-									lists = append(lists, o)
+		scopes := []*ast.BlockStmt{fi.Decl.Body}
+		seenBody := map[string]bool{}
+		for _, ii := range f.Inl {
+			if h := p.Func(ii.Callee); h != nil && h.Decl != nil && h.Decl.Body != nil && !seenBody[ii.Callee] {
+				seenBody[ii.Callee] = true
+				scopes = append(scopes, h.Decl.Body)
+			}
+		}
+		for _, sc := range scopes {
+			ast.Inspect(sc, func(x ast.Node) bool {
+				if as, ok := x.(*ast.AssignStmt); ok && len(as.Rhs) == 1 && len(as.Lhs) == 1 {
+					if c, ok := ast.Unparen(as.Rhs[0]).(*ast.CallExpr); ok {
+						if id, ok := c.Fun.(*ast.Ident); ok && id.Name == "append" && len(c.Args) >= 2 {
+							if lists[f.rawPath(as.Lhs[0])] && c.Ellipsis.IsValid() {
+								if op := f.rawPath(c.Args[1]); op != "" {
+									lists[op] = true
 								}
 							}
 						}
 					}
 				}
-			}
-			return true
-		})
-		isList := func(o types.Object) bool {
-			for _, l := range lists {
-				if l == o {
-					return true
-				}
-			}
-			return false
+				return true
+			})
+		}
+		isList := func(e ast.Expr) bool {
+			lp := f.rawPath(e)
+			return lp != "" && lists[lp]
 		}
 		for i, pid := range pops {
 			gn := f.Nodes[pid]
@@ -432,7 +436,7 @@ func c14Producers(p *Prog, r *Report) {
 			// before the node variable is overwritten or the function exits (nil pops excepted)
 			appends := f.Match(func(an *GNode) bool {
 				as, ok := an.Ast.(*ast.AssignStmt)
-				if !ok || len(as.Rhs) != 1 || len(as.Lhs) != 1 || !isList(objOf(info, as.Lhs[0])) {
+				if !ok || len(as.Rhs) != 1 || len(as.Lhs) != 1 || an.Synth != "" || !isList(as.Lhs[0]) {
 					return false
 				}
 				c, ok := ast.Unparen(as.Rhs[0]).(*ast.CallExpr)
@@ -456,7 +460,11 @@ func c14Producers(p *Prog, r *Report) {
 			// from the non-nil edge after the pop, every path reaches an append (of n.V() or a value derived from it) before exit / re-pop
 			// the value may have been recorded before the pop in the same loop iteration (iterator-driven loops)
 			recordedBefore := false
-			for _, rs := range rangeLoops(fi.Decl.Body) {
+			var loops []*ast.RangeStmt
+			for _, sc := range scopes {
+				loops = append(loops, rangeLoops(sc)...)
+			}
+			for _, rs := range loops {
 				if gn.Ast.Pos() < rs.Body.Pos() || gn.Ast.End() > rs.Body.End() {
 					continue
 				}
@@ -535,4 +543,51 @@ func c14Producers(p *Prog, r *Report) {
 				"a popped version can reach "+bad+" without being appended to the returned delete list or the published set: its content is never removed")
 		}
 	}
+}
+
+// listPaths: the storage paths of the slices an expression is made of -- a variable or field itself, the
+// arguments of append, or what a small helper of the package returns (d.all() = append(d.dropped, d.moved...),
+// the helper's receiver standing for the call's receiver expression).
+func listPaths(p *Prog, fi *FuncInfo, f *Flat, e ast.Expr) map[string]bool {
+	lists := map[string]bool{}
+	var addListExpr func(g *Flat, e ast.Expr, subst func(string) string, depth int)
+	addListExpr = func(g *Flat, e ast.Expr, subst func(string) string, depth int) {
+		e = ast.Unparen(e)
+		if lp := g.rawPath(e); lp != "" {
+			lists[subst(lp)] = true
+			return
+		}
+		c, ok := e.(*ast.CallExpr)
+		if !ok || depth > 2 {
+			return
+		}
+		if id, ok := c.Fun.(*ast.Ident); ok && id.Name == "append" {
+			for _, a := range c.Args {
+				addListExpr(g, a, subst, depth+1)
+			}
+			return
+		}
+		if h := p.staticCallee(g.Pkg, c); h != nil && h.Pkg == fi.Pkg && h.Decl != nil && h.Decl.Body != nil {
+			hf := p.FlatOf(h)
+			hsub := subst
+			if sel, ok := ast.Unparen(c.Fun).(*ast.SelectorExpr); ok {
+				if ro := paramObjs(h)[-1]; ro != nil {
+					from, to := objID(ro), subst(g.rawPath(sel.X))
+					hsub = func(s string) string {
+						if s == from || strings.HasPrefix(s, from+".") {
+							return to + s[len(from):]
+						}
+						return s
+					}
+				}
+			}
+			for _, id := range hf.ReturnNodes() {
+				if rs := hf.returnStmt(id); rs != nil && len(rs.Results) >= 1 {
+					addListExpr(hf, rs.Results[0], hsub, depth+1)
+				}
+			}
+		}
+	}
+	addListExpr(f, e, func(s string) string { return s }, 0)
+	return lists
 }
